@@ -88,6 +88,12 @@ pub struct Connection {
     
     /// Client name (set via CLIENT SETNAME)
     pub name: Option<String>,
+    
+    /// Frames that arrived in the same read behind a command that blocked the client (and the
+    /// protocol error that ended that read, if any): they are executed once the client is served
+    /// or timed out, so that replies keep the order of the requests
+    pub deferred_frames: Vec<RespFrame>,
+    pub deferred_protocol_error: Option<String>,
 }
 
 impl Connection {
@@ -115,6 +121,8 @@ impl Connection {
             transaction_state: TransactionState::default(),
             is_monitoring: false,
             name: None,
+            deferred_frames: Vec::new(),
+            deferred_protocol_error: None,
         })
     }
     
